@@ -73,6 +73,10 @@ func (ch *dagChannel) load(c channel) error {
 
 func (ch *dagChannel) reportValues(ins map[string]any) error {
 	if ch.Skipped {
+		// a skipped node never reads what is written to it
+		for _, v := range ins {
+			closeIfStream(v)
+		}
 		return nil
 	}
 
@@ -117,6 +121,13 @@ func (ch *dagChannel) reportSkip(keys []string) bool {
 		}
 	}
 	ch.Skipped = allSkipped
+	if allSkipped {
+		// the values received so far will never be read
+		for k, v := range ch.Values {
+			closeIfStream(v)
+			delete(ch.Values, k)
+		}
+	}
 
 	return allSkipped
 }
